@@ -295,3 +295,28 @@ PROPS["C19"] = Spec(
     bounds={"quick": "4x2000 (each case runs twice)", "thorough": "16x60000"},
     assumptions=COMMON_ASSUMPTIONS + ["injected parameters are never also passed by the caller"],
 )
+
+# ---- late additions that apply to every engine (DESIGN.md sections 8 and 10) ---------------------
+_LARGE = {
+    "C01": "4% large cases: 17-70 callbacks on one context, or one callback registering 33-64 more during teardown",
+    "C02": "8% of histories start from a table of 20-70 resources / factories; 4% contain a chain of 33-70 child contexts alive at once",
+    "C03": "3% of histories start from a table of 20-70 entries (with a never-reading default-queue subscriber); registrations under 11-14 types enumerated",
+    "C04": "8% of histories start from a table of 20-70 entries; retry family with generations of 35/100 virtual seconds and 15-20 earlier generations",
+    "C05": "2% large trees: one component with 33-39 children, or a chain 34-40 levels deep",
+    "C06": "2% large trees; 2% of steps keep 20-100 contexts alive at once; bursts of up to 70 (thorough 130) publications",
+    "C07": "4% large trees (most siblings stalled in stall mode); 15% of timeout cases with start-ups of 31-100 virtual seconds",
+    "C08": "4% large cases: 34-70 registrations on one context; clean-ups of 35/100 virtual seconds",
+    "C09": "5% large cases: 11-25 tasks still running (for up to 100 virtual seconds) when the factory's context is left",
+    "C10": "8% of bursts are 18-60 events long; waiters followed by long non-matching bursts; one stream over the signals of 20-100 owners",
+    "C11": "one stream over the signals of 20-100 owners (1% of operations)",
+    "C12": "3% deep chains: 20-90 nested contexts in one task, unwound by return or by an exception",
+    "C13": "2.5% scale cases: 20-70 nested contexts, or a chain of 20-70 teardown callbacks each registering the next",
+    "C14": "4% option mappings 7-20 levels deep; 3% chains of 10-25 configuration-only components",
+    "C15": "3% of phases register 32-80 callbacks; 2.5% of nested callbacks register 33-64 more during teardown",
+    "C16": "6% of two-file component layouts hold a section 9-30 levels deep (half of them with a --set path of that length)",
+    "C17": "20% of pairs sit 1-100 levels down a chain of dict/dict collisions",
+    "C18": "3% of histories start from a table of 20-70 entries (with a never-reading default-queue subscriber subscribed first); 4% contain a chain of 33-70 child contexts",
+    "C19": "6% async factories that take 35/100 virtual seconds; 6% tasks with 16-40 earlier failing injected calls",
+}
+for _pid, _txt in _LARGE.items():
+    PROPS[_pid].bounds = {_tier: _b + "; " + _txt for _tier, _b in PROPS[_pid].bounds.items()}  # (a fresh dict: some specs share one)
